@@ -107,7 +107,49 @@ void vf::run_case(Src &s, Ctx &c)
     // the environment by a serpentine corridor - thin walls reaching alternately from the bottom and from the top - and walk through its
     // gaps with many vertices, close to the wall tips: long paths on which only nearby vertices see each other and every shortcut grazes a
     // corner. Random balls and boxes almost never form such passages.
-    if (seed % 6 == 0)
+    if (seed % 12 == 0 && P->r() >= 0.14 && P->r() <= 0.45)
+    {
+        // narrow winding band: valid space is a staircase approximation of |y - f(x)| < w, f a triangle wave, w about twice the checking
+        // resolution (so that shortcuts can graze the steps between two check points); the input walks along the centre line
+        shape = 5;
+        const double r = P->r(), w = r * s.real(1.6, 3.0), dx = std::min(0.2, 0.4 * w), amp = s.real(0.6, 2.0), period = s.real(1.5, 4.0);
+        const double x0 = P->ps.lo + 0.3, x1 = P->ps.hi - 0.3, mid = 0.5 * (P->ps.lo + P->ps.hi);
+        auto f = [&](double x)
+        {
+            double u = std::fmod((x - x0) / period, 1.0);
+            return mid + amp * (u < 0.5 ? 4 * u - 1 : 3 - 4 * u);
+        };
+        P->env.obs.clear();
+        auto box = [&](double a, double b, double c0, double c1)
+        {
+            Obstacle o{};
+            o.ball = false;
+            o.x0 = a;
+            o.x1 = b;
+            o.y0 = c0;
+            o.y1 = c1;
+            P->env.obs.push_back(o);
+        };
+        box(P->ps.lo - 1, x0 - 0.2, P->ps.lo - 1, P->ps.hi + 1);
+        box(x1 + 0.2, P->ps.hi + 1, P->ps.lo - 1, P->ps.hi + 1);
+        std::vector<double> xs;
+        for (double x = x0 - 0.2; x < x1 + 0.2; x += dx)
+        {
+            double yc = f(std::min(std::max(x + 0.5 * dx, x0), x1));
+            box(x, x + dx, P->ps.lo - 1, yc - w);
+            box(x, x + dx, yc + w, P->ps.hi + 1);
+            xs.push_back(x + 0.5 * dx);
+        }
+        path.clear();
+        int stride = s.in(1, 3);
+        for (size_t i = 0; i < xs.size(); i += stride)
+            if (xs[i] >= x0 && xs[i] <= x1)
+                appendXY(*P, s, path, xs[i], f(xs[i]), scratch, tmp);
+        if (path.getStateCount() == 0)
+            throw Skip{"band too narrow for a valid centre line"};
+        c.count("input:narrow-band");
+    }
+    else if (seed % 6 == 0)
     {
         shape = 5;
         double gx, gy;
